@@ -63,12 +63,35 @@ def dtype? (s : String) : Option (Nat × Bool) :=
   | "ro" => some (8, true)
   | "ad" => some (0, true) | "al" => some (1, true) | "ai" => some (2, true) | "ah" => some (3, true)
   | "ab" => some (4, true) | "aB" => some (5, true) | "aH" => some (6, true) | "af" => some (7, true)
+  | "e8" => some (9, false)
+  | _ => none
+
+def digits? (l : List Char) (maxLen : Nat) : Option Nat :=
+  if l.isEmpty || l.length > maxLen || !l.all Char.isDigit then none else (String.ofList l).toNat?
+
+/-- record layouts `q<R>o<F>s[m]<K>`: field at byte offset F of packed records of R bytes, every K-th record, `m` = backwards -/
+def recLay? (s : String) : Option Lay :=
+  match s.toList with
+  | 'q' :: rest =>
+    match (String.ofList rest).splitOn "o" with
+    | [r, rest2] =>
+      match rest2.splitOn "s" with
+      | [f, st] => do
+        let R ← digits? r.toList 2
+        let fo ← digits? f.toList 2
+        let (neg, kd) := match st.toList with
+          | 'm' :: d => (true, d)
+          | d => (false, d)
+        let k ← digits? kd 1
+        if R < 1 || R > 64 || k < 1 || k > 4 then none else pure (.q R fo neg (k - 1))
+      | _ => none
+    | _ => none
   | _ => none
 
 def lay? (s : String) : Option Lay :=
   match s with
   | "c" => some .c | "s2" => some .s2 | "col" => some .col | "r" => some .r | "r2" => some .r2
-  | _ => none
+  | s => recLay? s
 
 /-- `nb_<element type>_<layout>`: doubles (also read-only) construct, every other element type is rejected -/
 def nbHow? (s : String) : Option CtorHow :=
@@ -77,15 +100,17 @@ def nbHow? (s : String) : Option CtorHow :=
     let (code, special) ← dtype? dt
     let l ← lay? lay
     if special && l != .c then pure .nakind
-    else if code == 0 || code == 8 then pure (.buf l.stride)
+    else if !l.fits code then pure .nakind
+    else if code == 0 || code == 8 then pure (.buf l.stride l.memLay)
     else pure (.badbuf code)
   | _ => none
 
 def how? (s : String) : Option CtorHow :=
   match s with
   | "list" => some .list | "tuple" => some .tuple | "args" => some .args
-  | "np" | "buf" => some (.buf 1)
-  | "nps2" => some (.buf 2) | "nps3" => some (.buf 3) | "npsm1" => some (.buf (-1)) | "npsm2" => some (.buf (-2))
+  | "np" | "buf" => some (.buf 1 {})
+  | "nps2" => some (.buf 2 {}) | "nps3" => some (.buf 3 {}) | "npsm1" => some (.buf (-1) {}) | "npsm2" => some (.buf (-2) {})
+  | "npb0" => some (.buf 0 {})       -- a broadcast buffer: byte stride 0
   | "fac" => some .fac
   | "ilist" => some .ilist | "ituple" => some .ituple | "iargs" => some .iargs
   | "npi" => some (.badbuf 1) | "npf32" => some (.badbuf 7) | "np2d" => some (.badbuf 0)
@@ -97,7 +122,7 @@ def okind? (s : String) : Option OKind :=
   | "list" | "ilist" => some .list
   | "tuple" => some .tuple
   | "np" | "buf" => some (.buf 1)
-  | "nps2" => some (.buf 2) | "npsm1" => some (.buf (-1))
+  | "nps2" => some (.buf 2) | "npsm1" => some (.buf (-1)) | "npb0" => some (.buf 0)
   | _ => none
 
 def vseg? (sg : String) : Option VOp :=
